@@ -43,7 +43,9 @@ def changed(before, after):
     return {k for k in set(fb) | set(fa) if k not in fb or k not in fa or not same(fb[k], fa[k])}
 
 
-def doc_matches(val, want, nmonths):
+def doc_matches(val, want, nmonths, row=None):
+    if want.startswith("row:"):
+        return row is not None and abs(float(val) - 100.0 * float(row[want[4:]])) < 1e-9
     if want == "N":
         return val == nmonths
     if want in ("True", "False"):
@@ -136,11 +138,13 @@ def main():
     # ---- 2. dispatch: one family corrupted at a time
     from harness_presets_snapshot import BASE_COUNTRY, BASE_GLOBAL  # written by the driver next to the cases file
     sr = ScenarioRunner()
-    for scale, base, cd in (("country", BASE_COUNTRY, rows["ARG"]), ("global", BASE_GLOBAL, None)):
+    for scale, base, cd in (("country", BASE_COUNTRY, rows["ARG"]), ("country", BASE_COUNTRY, rows["AUS"]), ("global", BASE_GLOBAL, None)):
         with contextlib.redirect_stdout(io.StringIO()):
             c_base, _, _ = sr.set_depending_on_option(copy.deepcopy(base), country_data=cd)
         for case in tables["cases"]:
             f, v = case["f"], case["v"]
+            if cd is rows["AUS"] and f != "waste":
+                continue  # (a second data row for the family whose documented values are read from the row)
             opts = copy.deepcopy(base)
             if v == "__missing__":
                 opts.pop(f, None)
@@ -173,7 +177,7 @@ def main():
                 fc = flat(c)
                 fc.update(flat(t))
                 for key, val in tables["doc"].get(f, {}).get(v, []):
-                    if key not in fc or not doc_matches(fc[key], val, opts["NMONTHS"]):
+                    if key not in fc or not doc_matches(fc[key], val, opts["NMONTHS"], cd):
                         bad("WritesAsDocumented:%s=%s:%s" % (f, v, key), dict(case=case, scale=scale, got=repr(fc.get(key))[:80], want=val))
                 # other families' constants are what they are in the base dictionary
                 ch = changed(c_base, c)
